@@ -36,6 +36,13 @@ type VerifModelCache struct {
 	Clock    uint64
 	PruneIdx uint64
 
+	// IdealReads: intended reads with Priority 0 return the entries of ALL intents below the
+	// requested paths (limited to the PriorityCount best priorities per path when
+	// PriorityCount > 0) instead of what sdcio/cache v0.0.35 really answers (best priority
+	// only, scan stops at the first rejected key). Used by harness variants that check the
+	// callers' logic under the contract they were evidently written against.
+	IdealReads bool
+
 	Calls  int
 	FailAt int // 1-based index of the collaborator call that fails once (0 = never)
 	Log    []string
@@ -210,6 +217,25 @@ func (m *VerifModelCache) ReadValue(ctx context.Context, name string, ro *cache.
 					if strings.HasPrefix(x.Key+vDelim, prefix) {
 						res = append(res, vToEntry(x, true))
 					}
+				}
+			case m.IdealReads:
+				for _, x := range m.Intended {
+					if !strings.HasPrefix(x.Key+vDelim, prefix) {
+						continue
+					}
+					if ro.PriorityCount > 0 {
+						// x is among the PriorityCount best priorities of its path?
+						better := map[int32]bool{}
+						for _, y := range m.Intended {
+							if y.Key == x.Key && y.Prio < x.Prio {
+								better[y.Prio] = true
+							}
+						}
+						if len(better) >= int(int32(ro.PriorityCount)) {
+							continue
+						}
+					}
+					res = append(res, vToEntry(x, true))
 				}
 			default:
 				// highest priorities per entry path, owner ignored; the iteration over
